@@ -200,6 +200,14 @@ def _drive(gen):
 def run_history(ops):
     if ops and ops[0] == 'PAIR':
         return run_pair(ops[1], ops[2], ops[3])
+    if ops and ops[0] == 'COPY':
+        return run_copy_session(ops)
+    if ops and ops[0] == 'REENT':
+        return run_reentrant_session(ops)
+    if ops and ops[0] == 'NEST':
+        return run_nested_retrieval(ops)
+    if ops and ops[0] == 'LONG':
+        return run_long_run(ops)
     return _drive(_session(ops))
 
 
@@ -276,6 +284,125 @@ def history_from_cuts(rng, stream, cuts, retrieval=0.5, bad=0.0):
     return ops
 
 
+def run_copy_session(case):
+    """['COPY', how, head, tail_for_copy, tail_for_original]: a parser that has been fed `head` (possibly cut inside a message)
+    is copied with copy.deepcopy or a pickle round trip; the copy is fed one tail, the original another.  Each of the two must
+    hand out exactly the messages of the bytes IT was fed."""
+    import copy
+    import pickle
+    import mido
+    _, how, head, tail_c, tail_o = case
+    try:
+        p = mido.Parser()
+        p.feed(head)
+        q = copy.deepcopy(p) if how == 'deepcopy' else pickle.loads(pickle.dumps(p, 2 if how == 'pickle2' else pickle.HIGHEST_PROTOCOL))
+        for b in tail_c:
+            q.feed_byte(b)
+        p.feed(tail_o)
+        got_q = [msgs.canon_msg(m) for m in q]
+        got_p = [msgs.canon_msg(m) for m in p]
+        want_q = [msgs.canon_msg(m) for m in mido.parse_all(list(head) + list(tail_c))]
+        want_p = [msgs.canon_msg(m) for m in mido.parse_all(list(head) + list(tail_o))]
+    except Exception as e:
+        return [], f'copying a parser ({how}) and using both raised {type(e).__name__}: {e}'
+    if got_q != want_q:
+        return [], (f'a parser fed {head} was copied ({how}) and the copy fed {tail_c}: the copy hands out {got_q}, the bytes it was '
+                    f'fed parse to {want_q}')
+    if got_p != want_p:
+        return [], (f'a parser fed {head} was copied ({how}), the copy fed {tail_c} and the original {tail_o}: the original hands '
+                    f'out {got_p}, the bytes it was fed parse to {want_p}')
+    return [], None
+
+
+def run_reentrant_session(case):
+    """['REENT', before, inner, after]: feed() is given a generator; while it is being consumed (after `before`), the generator
+    itself feeds `inner` to the same parser, then goes on with `after`.  The parser has then received before+inner+after, in
+    that order."""
+    import mido
+    _, before, inner, after = case
+    p = mido.Parser()
+
+    def gen():
+        for b in before:
+            yield b
+        p.feed(inner)
+        for b in after:
+            yield b
+    try:
+        p.feed(gen())
+        got = [msgs.canon_msg(m) for m in p]
+        want = [msgs.canon_msg(m) for m in mido.parse_all(list(before) + list(inner) + list(after))]
+    except Exception as e:
+        return [], f'feeding a generator that feeds the same parser raised {type(e).__name__}: {e}'
+    if sorted(got) != sorted(want) or [g for g in got if g.split(' ')[0] not in msgs.REALTIME] != [w for w in want if w.split(' ')[0] not in msgs.REALTIME]:
+        return [], (f'the parser received {before} + {inner} (fed by the generator itself, to the same parser) + {after}; it hands '
+                    f'out {got}, those bytes in that order parse to {want}')
+    return [], None
+
+
+def run_nested_retrieval(case):
+    """['NEST', stream, k]: inside `for msg in parser` the consumer also calls get_message() (a look-ahead) every k-th round and
+    leaves the loop early once; every message is handed out exactly once, in order."""
+    import mido
+    _, stream, k = case
+    p = mido.Parser()
+    p.feed(stream)
+    want = [msgs.canon_msg(m) for m in mido.parse_all(stream)]
+    got = []
+    try:
+        rounds = 0
+        for m in p:
+            got.append(msgs.canon_msg(m))
+            rounds += 1
+            if rounds % k == 0:
+                n = p.pending()
+                x = p.get_message()
+                if x is not None:
+                    got.append(msgs.canon_msg(x))
+                if n != len(want) - len(got) + (1 if x is not None else 0):
+                    return [], f'pending() inside the loop said {n} with {len(want) - len(got) + (1 if x is not None else 0)} left'
+            if rounds == 3:
+                break
+        for m in p:
+            got.append(msgs.canon_msg(m))
+    except Exception as e:
+        return [], f'retrieval nested in an iteration raised {type(e).__name__}: {e}'
+    if got != want:
+        return [], f'iteration with a nested get_message() and an early break handed out {got}, the stream holds {want}'
+    return [], None
+
+
+def run_long_run(case):
+    """['LONG', notes, payload, every]: ONE parser takes `notes` three-byte messages, then a sysex of `payload` bytes with a
+    real-time byte after every `every` payload bytes — about 64..70 KiB of data bytes through one object, the sysex lying
+    across any power-of-two byte count.  Everything comes out, intact."""
+    import mido
+    _, notes, payload, every = case
+    p = mido.Parser()
+    stream = [0x90, 1, 2] * notes
+    body = []
+    for i in range(payload):
+        body.append((i * 7) % 128)
+        if i % every == every - 1:
+            body.append(0xf8)
+    stream += [0xf0] + body + [0xf7, 0x80, 3, 4]
+    try:
+        for i in range(0, len(stream), 997):
+            p.feed(bytes(stream[i:i + 997]))
+        got = list(p)
+    except Exception as e:
+        return [], f'a long run through one parser raised {type(e).__name__}: {e}'
+    want_sys = tuple((i * 7) % 128 for i in range(payload))
+    sysex = [m for m in got if m.type == 'sysex']
+    clocks = sum(1 for m in got if m.type == 'clock')
+    if len(got) != notes + 1 + payload // every + 1 or len(sysex) != 1 or tuple(sysex[0].data) != want_sys or clocks != payload // every:
+        have = len(sysex[0].data) if sysex else None
+        return [], (f'after {notes} note messages through the same parser, a sysex of {payload} bytes with a clock byte every {every} bytes came '
+                    f'out as {len(got)} messages, sysex payload length {have}, {clocks} clocks (expected {notes + 2 + payload // every} messages, '
+                    f'payload {payload}, {payload // every} clocks)')
+    return [], None
+
+
 def special_sessions(rng, n):
     """Sessions built for mechanisms that only show after a particular earlier step (shared by C04, C05, C06):
     a feeding call that is left by an exception (a refused item, an iterable that fails) after it completed a message, then
@@ -284,6 +411,27 @@ def special_sessions(rng, n):
     message, then stray data bytes."""
     hs = []
     chan = [t for t in msgs.TYPE_NAMES if t in ('note_on', 'note_off', 'control_change', 'program_change', 'pitchwheel', 'polytouch', 'aftertouch')]
+    for notes in ([31500, 32000, 32500, 32700] if n < 5000 else [15800, 16300, 31000, 31500, 32000, 32500, 32700, 65000, 65400]):
+        hs.append(['LONG', notes, 3000, 100])
+    for i in range(n // 8):
+        # a parser copied while a message is open (deepcopy / pickle), both used afterwards
+        t, d = msgs.random_message(rng, max_sysex=5, types=[x for x in msgs.TYPE_NAMES if x not in msgs.REALTIME and x != 'tune_request'])
+        enc = msgs.encode_ref(t, d)
+        cut = rng.randrange(1, len(enc))
+        pre = msgs.encode_ref(*msgs.random_message(rng, max_sysex=2)) if rng.random() < 0.5 else []
+        rt = [rng.choice(parsing.DEFINED_RT)] if rng.random() < 0.5 else []
+        tail_c = rt + enc[cut:] + msgs.encode_ref(*msgs.random_message(rng, max_sysex=2))
+        tail_o = [rng.choice(parsing.DEFINED_RT)] + (enc[cut:] if rng.random() < 0.5 else [0x90, 1, 2])
+        hs.append(['COPY', rng.choice(['deepcopy', 'pickle', 'pickle2']), pre + enc[:cut], tail_c, tail_o])
+        # a generator that feeds the same parser while feed() consumes it
+        t2, d2 = msgs.random_message(rng, max_sysex=3, types=chan)
+        e2 = msgs.encode_ref(t2, d2)
+        c2 = rng.randrange(1, len(e2))
+        inner = msgs.encode_ref(*msgs.random_message(rng, max_sysex=2, types=chan + ['sysex']))
+        hs.append(['REENT', e2[:c2], inner, e2[c2:] + ([rng.randint(0, 127)] if rng.random() < 0.5 else [])])
+        # retrieval nested in an iteration
+        stream = [b for _ in range(rng.randint(4, 8)) for b in msgs.encode_ref(*msgs.random_message(rng, max_sysex=2))]
+        hs.append(['NEST', stream, rng.choice([1, 2])])
     for i in range(n):
         ops = []
         r = i % 4
@@ -455,10 +603,15 @@ def run(ck):
                 ck.oracle_fail({'ops': h}, fail)
             flat.append((h[1], lines[0]))
             flat.append((h[2], lines[1]))
+        elif h and h[0] in ('COPY', 'REENT', 'NEST', 'LONG'):
+            ck.note_case(repr(h), nontrivial=True)
+            ck.count({'COPY': 'parser_copied_mid_message', 'REENT': 'generator_feeding_the_same_parser', 'NEST': 'retrieval_nested_in_iteration', 'LONG': 'long_run_through_one_parser'}[h[0]])
+            if fail:
+                ck.oracle_fail({'ops': h}, fail)
         else:
             flat.append((h, lines))
     for h, (lines, fail) in zip(hs, res):
-        if h and h[0] == 'PAIR':
+        if h and h[0] in ('PAIR', 'COPY', 'REENT', 'NEST', 'LONG'):
             continue
         feeds = sum(1 for o in h if o[0] in ('feed', 'feedbyte', 'pput'))
         retr = sum(1 for o in h if o[0] in ('get', 'iternext', 'ppoll', 'piterpoll', 'pending'))
@@ -491,6 +644,8 @@ def run(ck):
 
 def oracle(case):
     ops = case['ops']
+    if ops and ops[0] in ('COPY', 'REENT', 'NEST', 'LONG'):
+        return run_history(ops)[1]
     if ops and ops[0] == 'PAIR':
         return run_pair([tuple(o) for o in ops[1]], [tuple(o) for o in ops[2]], ops[3])[1]
     ops = [tuple(o) if not isinstance(o, tuple) else o for o in ops]
